@@ -32,6 +32,19 @@ pub struct Inc {
     pub ops: Vec<Op>,
     /// "clean" (drop everything, then exit) or "kill" (exit right after the last op)
     pub end: String,
+    /// process crash inside an operation (or inside the reopen itself): the process ends before the `at`-th
+    /// intercepted I/O call (positional write, fsync/fdatasync, truncate, rename) of the phase
+    #[serde(default, skip_serializing_if = "Option::is_none")]
+    pub crash: Option<Crash>,
+}
+
+#[derive(Serialize, Deserialize, Clone, Debug, PartialEq)]
+pub struct Crash {
+    /// "ops" = counted from the first operation of the incarnation; "open" = counted from process start (recovery)
+    pub phase: String,
+    pub at: u64,
+    /// > 0: if the call is a positional write longer than this, that many bytes of it are written first
+    pub torn: u64,
 }
 
 #[derive(Serialize, Deserialize, Clone, Debug, PartialEq)]
@@ -99,9 +112,24 @@ pub fn gen_plan(seed: u64, scale: u64) -> Plan {
     let mut term = 1u64;
     let mut purged = 0u64;
     let mut peer_id = 0u64;
+    // recovery replays the log in batches capped at 2000 records and 10 MiB: some histories must exceed either cap
+    let shape = r.below(100);
+    let (long_history, bulky) = (shape < 5, (5..9).contains(&shape));
     for k in 0..n_inc {
         let n_ops = if k + 1 == n_inc { 0 } else { (r.range(1, 14) * scale / 100).max(1) };
         let mut ops = Vec::new();
+        if k == 0 && long_history {
+            let n = (r.range(1900, 2400) * scale / 100).max(1);
+            ops.push(Op::Append { start: next_index, n, term, size: r.below(9) });
+            next_index += n;
+        }
+        if k == 0 && bulky {
+            for _ in 0..(r.range(3, 4) * scale / 100).max(1) {
+                let n = r.range(4, 6);
+                ops.push(Op::Append { start: next_index, n, term, size: r.range(150_000, 260_000) });
+                next_index += n;
+            }
+        }
         for _ in 0..n_ops {
             match r.below(10) {
                 0..=4 => {
@@ -143,7 +171,20 @@ pub fn gen_plan(seed: u64, scale: u64) -> Plan {
                 }
             }
         }
-        incs.push(Inc { ops, end: if r.chance(0.5) { "clean".into() } else { "kill".into() } });
+        let end: String = if r.chance(0.5) { "clean".into() } else { "kill".into() };
+        // own PRNG stream for the crash decisions, so that the histories themselves are those of the earlier rounds
+        let mut rc = Rng(crate::mix(seed, 0x2100 + k));
+        let has_limit = ops.iter().any(|o| matches!(o, Op::FileSizeLimit { .. }));
+        let records: u64 = ops.iter().map(|o| if let Op::Append { n, .. } = o { *n } else { 1 }).sum();
+        let crash = if k + 1 < n_inc && !has_limit && !ops.is_empty() && rc.chance(0.3) {
+            // a record costs about two calls (write + sync) with flush 0 and one otherwise; beyond the last call = plain kill
+            Some(Crash { phase: "ops".into(), at: rc.range(1, records.min(40) * 2 + 1), torn: if rc.chance(0.35) { rc.range(1, 300) } else { 0 } })
+        } else if k > 0 && k + 1 < n_inc && rc.chance(0.1) {
+            Some(Crash { phase: "open".into(), at: rc.range(1, 10), torn: if rc.chance(0.35) { rc.range(1, 40) } else { 0 } })
+        } else {
+            None
+        };
+        incs.push(Inc { ops, end, crash });
     }
     Plan { seed, flush_ms: *[0u64, 100, 100].get(r.below(3) as usize).unwrap(), incs }
 }
@@ -156,6 +197,9 @@ pub fn run_child(plan_path: &str, inc_idx: usize) -> i32 {
     std::env::set_var("WALRUS_QUIET", "1");
     tokio::sim::init(tokio::sim::Config { seed: plan.seed, ..Default::default() });
     let inc = plan.incs[inc_idx].clone();
+    if let Some(c) = inc.crash.as_ref().filter(|c| c.phase == "open") {
+        crate::iohook::arm(c.at, c.torn);
+    }
     let dir = std::env::current_dir().unwrap().join("raft_meta");
     let mut state = State::default();
     let mut acked_file = std::fs::OpenOptions::new().create(true).append(true).open(format!("acked.{}", inc_idx)).unwrap();
@@ -205,6 +249,10 @@ pub fn run_child(plan_path: &str, inc_idx: usize) -> i32 {
         println!("{}", serde_json::to_string(&state).unwrap());
         use std::io::Write;
         let _ = std::io::stdout().flush();
+        crate::iohook::disarm();
+        if let Some(c) = inc.crash.as_ref().filter(|c| c.phase == "ops") {
+            crate::iohook::arm(c.at, c.torn);
+        }
         for (k, op) in inc.ops.iter().enumerate() {
             let ok = match op {
                 Op::Append { start, n, term, size } => {
@@ -238,6 +286,7 @@ pub fn run_child(plan_path: &str, inc_idx: usize) -> i32 {
                 let _ = writeln!(acked_file, "{}", k);
             }
         }
+        crate::iohook::disarm();
         // the limit must not outlive the operations (the clean shutdown below may write)
         unsafe {
             let lim = libc::rlimit { rlim_cur: libc::RLIM_INFINITY, rlim_max: libc::RLIM_INFINITY };
@@ -296,6 +345,28 @@ impl Model {
             }
             Op::FileSizeLimit { .. } => {}
         }
+    }
+
+    /// states the store may be in when `op` was in flight at a process crash: not reflected, reflected, or - an
+    /// append persists one record per entry - reflected up to any entry
+    pub fn candidates(&self, seed: u64, op: Option<&Op>) -> Vec<Model> {
+        let mut v = vec![self.clone()];
+        match op {
+            Some(Op::Append { start, n, term, size }) => {
+                for j in 1..=*n {
+                    let mut m = self.clone();
+                    m.apply(seed, &Op::Append { start: *start, n: j, term: *term, size: *size });
+                    v.push(m);
+                }
+            }
+            Some(Op::FileSizeLimit { .. }) | None => {}
+            Some(o) => {
+                let mut m = self.clone();
+                m.apply(seed, o);
+                v.push(m);
+            }
+        }
+        v
     }
 
     pub fn expected(&self) -> State {
